@@ -398,7 +398,10 @@ def measure_distribution(cases, lines):
             'element_category': dict(cat), 'events': dict(events)}
 
 
-GEN = ['gen_setcrew.json', 'gen_treeclear.json', 'gen_hashclear.json', 'gen_multiclear.json', 'gen_tableclear.json']
+GEN = ['gen_setcrew.json', 'gen_treeclear.json', 'gen_hashclear.json', 'gen_multiclear.json', 'gen_tableclear.json',
+       # two-object functions (round 7): the second object's fields are extra parameters <param>_<field>
+       'gen_setcrew2.json', 'gen_setcrewinl.json', 'gen_treeswap.json', 'gen_hashswap.json', 'gen_tableswap.json',
+       'gen_mempooldata.json', 'gen_mempoolswap.json']
 
 
 def gen_crew_contract(ctx):
@@ -453,6 +456,57 @@ def gen_crew_contract(ctx):
         return False
 
 
+def gen_mergeto_facts(ctx):
+    """T-gen (AST facts) for TreeSet::MergeTo, which as a whole is not translatable (iterators, pvMergeFast): the statements of
+    its `if (dstCount == 0)` branch (equal managers, empty destination -- the c7fda03 situation) as a list of callee names,
+    written to coq/Gen_MergeToFacts.v.  GenProofs2.v proves the branch IS `Swap(dst); IncVersion; IncVersion; return` and hence
+    inherits the theorem about the generated TreeSet::Swap."""
+    sys.path.insert(0, os.path.join(ctx.root, 'tools'))
+    import cxx2coq, json as _json
+    out = os.path.join(ctx.cdir, 'Gen_MergeToFacts.v')
+    try:
+        cfg = {'tu': os.path.join(ctx.pdir, 'inst.cpp'), 'filter': 'TreeSet', 'class': 'TreeSet', 'includes': [os.path.join(ctx.repo, 'include')]}
+        objs = cxx2coq.load_objs(cxx2coq.dump_ast(cfg, ctx.repo))
+        spec = cxx2coq.find_spec(objs, cfg)
+        ds = [d for d in cxx2coq.method_decls(spec, 'MergeTo') if 'dstCount' in _json.dumps(d)]
+        if len(ds) != 1:
+            raise cxx2coq.TranslationError('MergeTo(TreeSet&) not found')
+        found = []
+        def walk(n):
+            if not isinstance(n, dict): return
+            if n.get('kind') == 'IfStmt' and n.get('inner'):
+                c = _json.dumps(n['inner'][0])
+                if '"name": "dstCount"' in c and '"opcode": "=="' in c and '"value": "0"' in c:
+                    found.append(n['inner'][1])
+            for x in n.get('inner', []) or []: walk(x)
+        walk(ds[0])
+        if len(found) != 1:
+            raise cxx2coq.TranslationError('the `dstCount == 0` branch of MergeTo was not found exactly once')
+        th = found[0]
+        sts = th.get('inner', []) if th['kind'] == 'CompoundStmt' else [th]
+        names = []
+        for st in sts:
+            st = cxx2coq.skip_wrappers(st)
+            if st['kind'] == 'ReturnStmt': names.append('return'); continue
+            if st['kind'] in ('CallExpr', 'CXXMemberCallExpr'):
+                c = cxx2coq.skip_wrappers(st['inner'][0])
+                while c['kind'] == 'ImplicitCastExpr': c = cxx2coq.skip_wrappers(c['inner'][0])
+                names.append(c.get('name') or (c.get('referencedDecl') or {}).get('name') or '?'); continue
+            names.append(st['kind'])
+        txt = ('(* GENERATED by props/C14/prop.py (gen_mergeto_facts) from the clang AST of inst.cpp -- do not edit *)\n'
+               'From Coq Require Import List String.\nImport ListNotations.\nLocal Open Scope string_scope.\n\n'
+               '(* TreeSet::MergeTo(TreeSet& dst), branch `IsEqual(managers) && dstCount == 0`: callee of each statement *)\n'
+               'Definition mergeto_empty_dst_branch : list string := [%s].\n' % '; '.join('"%s"' % n for n in names))
+        if not os.path.exists(out) or open(out).read() != txt:
+            open(out, 'w').write(txt)
+        ctx.tie_obligations.append({'name': 'translate Gen_MergeToFacts (empty-destination branch of TreeSet::MergeTo)', 'ok': True})
+        return True
+    except Exception as e:
+        if os.path.exists(out): os.remove(out)
+        ctx.tie_obligations.append({'name': 'translate Gen_MergeToFacts', 'ok': False, 'error': str(e)[:400]})
+        return False
+
+
 def run(ctx):
     scale = 1 if ctx.quick() else 4
     ctx.trusted += ['tools/cxx2coq.py + clang 14 JSON AST (Clear / pvDestroy of TreeSet, HashSet, HashMultiMap, DataTable; SetCrew::pvIsNull; crew accessor contract)',
@@ -465,6 +519,8 @@ def run(ctx):
     ok_regen = ctx.regen(GEN)
     if not gen_crew_contract(ctx):
         ctx.stage('regen', False, 'crew contract extraction failed')
+    if not gen_mergeto_facts(ctx):
+        ctx.stage('regen', False, 'MergeTo facts extraction failed')
     ctx.prove()
     ok_build = build_binaries(ctx)
     cases = gen_cases(ctx, scale)
